@@ -1005,11 +1005,12 @@ pub mod locks {
 // ===========================================================================
 pub mod chan {
     use super::*;
-    use ::std::sync::mpsc::{RecvError, SendError, TryRecvError};
+    use ::std::sync::mpsc::{RecvError, SendError, TryRecvError, TrySendError};
 
     pub(crate) struct SimChan<T> {
         sh: Arc<Shared>,
         id: usize,
+        cap: Option<usize>,
         q: Mutex<VecDeque<T>>,
     }
 
@@ -1031,13 +1032,39 @@ pub mod chan {
 
     impl<T> SimTx<T> {
         fn send(&self, v: T) -> Result<(), SendError<T>> {
-            let mut cell = Some(v);
-            let out = chan_send(&self.0.sh, self.0.id, || {
-                self.0.q.lock().unwrap_or_else(|p| p.into_inner()).push_back(cell.take().unwrap());
-            });
+            let cell = ::std::cell::RefCell::new(Some(v));
+            let out = crate::chan_send_full(
+                &self.0.sh,
+                self.0.id,
+                true,
+                || {
+                    self.0.q.lock().unwrap_or_else(|p| p.into_inner()).push_back(cell.borrow_mut().take().unwrap());
+                },
+                |i| {
+                    // rendezvous send that was never taken: the message comes back
+                    *cell.borrow_mut() = self.0.q.lock().unwrap_or_else(|p| p.into_inner()).remove(i);
+                },
+            );
             match out {
                 SendOutcome::Sent => Ok(()),
-                SendOutcome::Disconnected => Err(SendError(cell.take().unwrap())),
+                SendOutcome::Disconnected | SendOutcome::Full => Err(SendError(cell.borrow_mut().take().expect("dstsim: undelivered message lost"))),
+            }
+        }
+        fn try_send(&self, v: T) -> Result<(), TrySendError<T>> {
+            let cell = ::std::cell::RefCell::new(Some(v));
+            let out = crate::chan_send_full(
+                &self.0.sh,
+                self.0.id,
+                false,
+                || {
+                    self.0.q.lock().unwrap_or_else(|p| p.into_inner()).push_back(cell.borrow_mut().take().unwrap());
+                },
+                |_| {},
+            );
+            match out {
+                SendOutcome::Sent => Ok(()),
+                SendOutcome::Full => Err(TrySendError::Full(cell.borrow_mut().take().unwrap())),
+                SendOutcome::Disconnected => Err(TrySendError::Disconnected(cell.borrow_mut().take().unwrap())),
             }
         }
     }
@@ -1047,14 +1074,30 @@ pub mod chan {
             SimTx(self.0.clone())
         }
     }
+    /// Dropping an endpoint is a scheduling point (before it takes effect), also while the thread
+    /// is unwinding: otherwise a drop would always be fused with the operation before it, and no
+    /// other task could ever act between "last message handled" and "endpoint gone" — an order
+    /// real threads do produce (found by the conformance test against real std and shuttle).
+    fn drop_yield() {
+        // (also while the thread unwinds from a panic: the scheduler never starts a second
+        // panic on a thread that is already unwinding)
+        crate::yield_if_sim("endpoint-drop");
+    }
     impl<T> Drop for SimTx<T> {
         fn drop(&mut self) {
+            drop_yield();
             chan_sender_drop(&self.0.sh, self.0.id);
         }
     }
     impl<T> Drop for SimRx<T> {
         fn drop(&mut self) {
+            drop_yield();
             chan_receiver_drop(&self.0.sh, self.0.id);
+            if self.0.cap == Some(0) {
+                // rendezvous: whatever is queued belongs to a sender that is still blocked in
+                // `send` and takes it back with the error
+                return;
+            }
             // drop queued payloads outside the scheduler lock
             let drained: Vec<T> = {
                 let mut q = self.0.q.lock().unwrap_or_else(|p| p.into_inner());
@@ -1080,7 +1123,7 @@ pub mod chan {
     fn sim_pair<T>(cap: Option<usize>) -> Option<(SimTx<T>, SimRx<T>)> {
         let (sh, me) = current()?;
         let id = chan_new(&sh, me, cap);
-        let c = Arc::new(SimChan { sh, id, q: Mutex::new(VecDeque::new()) });
+        let c = Arc::new(SimChan { sh, id, cap, q: Mutex::new(VecDeque::new()) });
         Some((SimTx(c.clone()), SimRx(c)))
     }
 
@@ -1094,7 +1137,7 @@ pub mod chan {
         }
     }
 
-    /// Bounded channel. Under simulation a capacity of 0 (rendezvous) is modelled as 1.
+    /// Bounded channel. Capacity 0 is a rendezvous: `send` returns once the message is taken.
     pub fn sync_channel<T>(bound: usize) -> (SyncSender<T>, Receiver<T>) {
         match sim_pair(Some(bound)) {
             Some((t, r)) => (SyncSender::Sim(t), Receiver::Sim(r)),
@@ -1125,6 +1168,12 @@ pub mod chan {
             match self {
                 SyncSender::Real(s) => s.send(v),
                 SyncSender::Sim(s) => s.send(v),
+            }
+        }
+        pub fn try_send(&self, v: T) -> Result<(), TrySendError<T>> {
+            match self {
+                SyncSender::Real(s) => s.try_send(v),
+                SyncSender::Sim(s) => s.try_send(v),
             }
         }
         pub fn sim_id(&self) -> Option<usize> {
